@@ -258,10 +258,6 @@ def check_standardize(case, rec):
     out = call("standardize_dataframe", pyrepseq.standardize_dataframe, df, **kw)
     if not (before.equals(df) and list(before.columns) == list(df.columns) and before.index.equals(df.index)):
         raise Violation("standardize-mutates-input", "the caller's table changed")
-    if mapper and kw["col_mapper"] != mapper_before:
-        raise Violation("standardize-mutates-mapper", "col_mapper changed")
-    if out is df:
-        raise Violation("standardize-returns-input", "the input object itself is returned")
     want_cols = [mapper.get(c, c) for c in df.columns]
     if list(out.columns) != want_cols:
         raise Violation("standardize-columns", f"columns {list(out.columns)} != {want_cols}")
